@@ -51,6 +51,12 @@ def generate(seed, tier):
     qr = random.Random("%s/queries" % seed)
     rec["queries"] = ([Q.gen_query(qr, cfg, depth=qr.choice((1, 2, 2, 3))) for _ in range(7)]
                       + [Q.gen_shaped_query(qr, cfg) for _ in range(3)])
+    # phrases taken (with gaps) from documents of this history, so that they match something
+    alldocs = [op[1] for op in rec["ops"] if op[0] in ("add", "update")] + [d for op in rec["ops"] if op[0] == "group" for d in op[1]]
+    for _ in range(2):
+        ph = Q.gen_phrase_from_docs(qr, alldocs, "t")
+        if ph is not None:
+            rec["queries"].append(ph)
     return rec
 
 
